@@ -106,6 +106,7 @@ def run_verus_part(rep):
     # write_term / write_triple together with quoted_string (so that the call is checked against the verified
     # contract); if their splice is lost, quoted_string alone is still proved and the term level is left to the
     # bounded harnesses / stand-ins below
+    tinfo = None
     try:
         tinfo = ntterm.build(core.REPO)
         res = verus.run_verus(ID, "ntterm", tinfo["text"])
@@ -115,6 +116,10 @@ def run_verus_part(rep):
         for a in tinfo["assumptions"]:
             rep.assume(a)
         rep.functions.append("sophia_turtle::serializer::nt::{write_term, write_triple} (turtle/src/serializer/nt.rs), extracted, bodies verbatim up to R0 (stand-in Term/Triple traits, `xsd::string != dt`) and R6 (specialised copy for the recursive call)")
+        if tinfo.get("statements"):
+            rep.functions.append("the per-statement closure bodies of NtSerializer::serialize_triples (nt.rs) and NqSerializer::serialize_quads (nq.rs), lifted verbatim into functions (R7)")
+        else:
+            rep.not_covered.append("statement closures of serialize_triples / serialize_quads (anchors lost: %s)" % tinfo.get("statements_lost"))
         tcan = ntterm.build(core.REPO, canary="always_suffix")
         tcres = verus.run_verus(ID, "ntterm_canary", tcan["text"])
         rep.guard("canary: a term grammar that always writes the datatype suffix must be refuted on write_term",
@@ -124,6 +129,9 @@ def run_verus_part(rep):
         rep.not_covered.append("write_term / write_triple unbounded proof (splice lost on this tree: %s)" % str(e)[:200])
         res = verus.run_verus(ID, "esc", info["text"])
         expect = info["expect_functions"]
+    import os
+    n_l1 = rsx.check_literal_axioms((tinfo or info).get("l1_sources", []), os.path.join(core.WORK, ID))
+    rep.guard("L1 byte-literal axioms cross-checked by rustc (%d literals)" % n_l1, n_l1 > 0)
     failed = verus.record(rep, res, expect, "verus:nt::", "turtle/src/serializer/nt.rs")
     # vacuity guard 3: the canary spec (esc that forgets CR) must FAIL on quoted_string
     can = unit.build(core.REPO, canary="spec_wrong_cr")
